@@ -243,8 +243,10 @@ macro "arm_toEnd" po:ident : tactic =>
       simp (disch := omega) [TieA.FrameGen.ints_cons, Rt.ck_usize]
       have hm : max (1 : Int) ((t.length : Int) + 1) = (((b :: t).length : Nat) : Int) := by
         simp only [List.length_cons]; omega
+      have hm' : max ((t.length : Int) + 1) (1 : Int) = (((b :: t).length : Nat) : Int) := by
+        simp only [List.length_cons]; omega
       rw [if_neg (by omega)]
-      simp only [hm]
+      simp only [hm, hm']
       have hs := TieA.FrameGen.slice0 (b :: t) (((b :: t).length : Nat) : Int) rfl
       simp only [TieA.FrameGen.ints_cons] at hs
       rw [hs]
@@ -342,6 +344,7 @@ macro "arm_status" po:ident : tactic =>
           (1 + (MacCmd.popcount4 (b &&& 15) : Int) * 5) (by omega) (by simp only [List.length_cons]; omega)
         simp only [TieA.FrameGen.ints_cons] at hs
         simp (disch := omega) [Rt.ck_usize, hl]
+        try rw [Int.add_comm ((MacCmd.popcount4 (b &&& 15) : Int) * 5) 1]
         rw [if_neg (by omega), hs]
         simp [TieA.MacCmdFrame.toOpt, TieA.MacCmdFrame.oneUp, TieA.MacCmdFrame.cmdUp, TieA.FrameGen.ints_cons]
         try omega))
